@@ -86,7 +86,40 @@ CLAIM = dict(
           "checked on every datagram by exact comparison with it, not stated as a separate theorem.  A single-pass iterable "
           "serves one command (it is exhausted afterwards - also in the unchanged code): the generators give it one.  Not driven: one context object shared by "
           "two controllers (a context pushes onto the stack of the controller that created it), callbacks registered while the "
-          "block is running."),
+          "block is running.  HARDENING CHECKLIST - what each stream validates: (1 kinds) contextual ints also as 0 / False / True, "
+          "IntEnum members and numpy.int64 (tags kind:*), chips over the full byte range on machines up to 256x256 and 1xN / Nx1, "
+          "BMP coordinates up to cabinet/frame 255 and board 23, boards / leds / states as list, tuple, set, frozenset, range, "
+          "dict keys view, iterator, generator, map, data as bytes / bytearray / memoryview, context names containing '%' and "
+          "'{}', controllers that are instances of a user subclass; NOT applicable: ints beyond a byte (chip, core, application, "
+          "board travel in 8-bit or narrower wire fields: app_id >= 256 overlaps the signal bits by design of the packet, so "
+          "larger values are illegal, not unbounded), 32-bit numpy ints (`app_id << 24` overflows in numpy, not in rig), numpy "
+          "ints as `board` of set_led / set_power (documented `int or iterable`, tested with isinstance), hashable identifiers "
+          "other than str (context names are Python keyword names), subclasses of RoutingTableEntry etc. (data of a command, not "
+          "its destination); (2 options) non-default values somewhere for: initial_context, get_software_version x/y/processor, "
+          "read/write p, set_led action, sdram_alloc tag/clear, flood_fill_aplx wait, load_application wait / n_tries 0-2 / "
+          "app_start_delay / use_count, wait_for_cores_to_reach_state count / poll_interval / timeout, set_power delay / "
+          "post_power_on_delay, send_scp's pass-through arguments, discover_connections / get_system_info x/y, BMP hosts as one "
+          "host name; left at default: scp_port, boot_port, n_tries, timeout, structs of the constructors (they go to the real "
+          "SCPConnection / struct reader, which the recording fakes replace; C07 covers them), iptag_set addr (name resolution); "
+          "(3 scale) 1100-1500 nested blocks (left by exception in half), contexts with 257-400 names, update with 300 names, "
+          "connection tables of 256x256 / 240x252 machines (~1400 boards), 24x24 machines discovered for real; nothing in scope "
+          "is counted in 8 or 16 bits except the wire fields above; (4 histories) every case is a history on one controller; "
+          "twins A B A differing in one contextual argument (explicit / context); a second controller of the same class with its "
+          "own block open, used alternately (judged as a case of its own); constructor defaults compared after every history "
+          "(`default-context-changed` pins a leak between controllers on the history that caused it, so that a replay "
+          "reproduces); (5 caller keeps and edits) the caller clears and re-uses the dictionaries it passed as initial_context / "
+          "hosts, keeps the first 6 dictionaries get_context_arguments() handed back (re-checked at the end: c18.kept) and "
+          "scribbles on all later ones; kept context objects are the re-entry streams; nothing in scope returns a lazy "
+          "iterator; a list / iterator the caller put INTO a context is the caller's (aliasing like update_current_context); "
+          "(6 faults) the n-th request of every MachineController method lost for n = 0..6, allocation failures, cores not "
+          "loading, failing stop signal, raising callbacks, boards not answering during discovery - all followed by further "
+          "commands on the same controller; (7 configuration) buffer size 16-1024, window size, per-chip core counts / link "
+          "masks / version strings / system variables that differ between the chips of one case, machine sizes and roots; NOT "
+          "varied: `_scp_data_length = None` (the lazily issued sver to (255, 255, 0) on first use is C07's subject and not part "
+          "of the wire rules here); (8 non-termination) every method call runs under common.cpu_limit(5 s; 1 s after 3 hangs), "
+          "`did-not-return` is a violation (the model's exec / wire are total functions), polling loops are also bounded by the "
+          "fake clock; undocumented exceptions of a method body are reported as model/implementation mismatches (the property "
+          "names no permitted failures other than the rejection of a missing argument)."),
     technique="Lean 4 theorems over a hand-written model + translator for signatures/constants + differential correspondence + Lean spec as oracle")
 
 THEOREMS = ["signatures_wellformed", "every_method_has_rule", "precedence", "precedence_accepted", "ctxLookup_innermost",
@@ -119,7 +152,12 @@ RULE = ("systematic part: every decorated method of MachineController and BMPCon
         "decorated method x {positional, keyword} with ALL its contextual arguments explicit inside a block that sets every "
         "contextual name of the controller to other values (initial context changed too in half of them), with random faults, "
         "application() included; leds and states (count_cores_in_state, wait_for_cores_to_reach_state) drawn from single "
-        "values, lists, tuples, sets, ranges and single-pass iterables of names or AppState numbers in every generator; random part: with-structured programs of depth <= 4 with blocks over random "
+        "values, lists, tuples, sets, frozensets, ranges, dict key views and single-pass iterables of names or AppState numbers in "
+        "every generator; contextual ints now and then 0 / bool / IntEnum / numpy.int64; scale (a handful per run): 1100-1500 "
+        "nested blocks, 257-400 names in one context, connection tables of 256x256 / 240x252 / 1x255 machines; twins A B A on one "
+        "controller differing in one contextual argument, half of them with a second controller of the same class used "
+        "alternately; every MachineController method with the n-th request lost, n = 0..6; environments (buffer size, window, "
+        "per-chip replies, subclassed controllers, BMP single host name) drawn per case; random part: with-structured programs of depth <= 4 with blocks over random "
         "subsets of argument names, a pool of kept context / application objects entered any number of times, before_close "
         "callbacks, application blocks (explicit / contextual id, failing stop, user "
         "callbacks), update_current_context, raise, try/except, calls of random methods (incl. discover_connections) in random "
@@ -639,7 +677,10 @@ class Unwind(Exception):
 def merged_of(c):
     """`get_context_arguments()`, canonical; the caller then keeps the dictionary it was handed (the first few,
     re-checked at the end of the history) or scribbles on it (all others)"""
-    d = c.get_context_arguments()
+    try:
+        d = c.get_context_arguments()
+    except Exception as e:      # (RecursionError on a deep stack, ...): shows up as a difference from the model
+        return [["<get_context_arguments>", {"o": type(e).__name__}]]
     out = sorted(([k, to_val(v)] for k, v in d.items()), key=lambda kv: kv[0])
     kept = c.__dict__.setdefault("_c18_kept", [])
     if len(kept) < 6:
